@@ -101,7 +101,7 @@ pub fn spec_for(prop: &str) -> Option<CheckSpec> {
             rule: "one case = (well-formed token document over 3 prefixes / 3 URIs with declarations, re-declarations, xmlns=\"\", xmlns:p=\"\" and shadowing; expand-empty on/off; source kind and chunking; script of Read / ReadResolved / Skip / ReadText calls); after EVERY call 14 probe names (7 prefixes x element/attribute) and the prefixes() listing are compared with the scope model; distinct = Plan hash; non-trivial = at least one declaration was in play AND (at least one skip or at least one shadowing)",
             assumptions: vec![
                 "the scope model is computed from the generator's token list (declarations per element), never from the library's output",
-                "documents are well-formed and free of illegal xml/xmlns rebinding",
+                "documents are well-formed; 1 in 15 carries one declaration that touches the reserved xml/xmlns prefixes or namespaces: the matching NamespaceError is expected at that element and the run ends there",
             ],
             real: real_reader,
             stub: STUBS.to_vec(),
